@@ -117,6 +117,7 @@ type Conn struct {
 	werr     error // fail writes with this error
 	hasWDL   bool  // a non-zero write deadline is armed (SetDeadline or SetWriteDeadline)
 	lateW    bool  // the harness' clock says: by the time of the next Write any armed write deadline has passed
+	wblock   bool  // the peer does not read: a Write blocks until the harness lets go or the connection is closed
 	deadline time.Time
 	hasDL    bool // a non-zero read deadline is armed
 	dlCalls  int
@@ -326,8 +327,25 @@ func (c *Conn) Read(p []byte) (int, error) {
 	}
 }
 
+// BlockWrites makes every Write block (a peer that does not read while its socket buffers are full) until
+// it is switched off again or the connection is closed.
+func (c *Conn) BlockWrites(on bool) {
+	c.mu.Lock()
+	c.wblock = on
+	c.cond.Broadcast()
+	c.mu.Unlock()
+}
+
 func (c *Conn) Write(p []byte) (int, error) {
 	c.mu.Lock()
+	if c.wblock && !c.closed {
+		c.mu.Unlock()
+		c.log.Add(EvNote, c.ID, len(p), nil, "write-blocked")
+		c.mu.Lock()
+		for c.wblock && !c.closed {
+			c.cond.Wait()
+		}
+	}
 	if c.closed {
 		c.mu.Unlock()
 		c.log.Add(EvWrite, c.ID, 0, net.ErrClosed, "")
